@@ -1,16 +1,10 @@
 (* Swamp/ApiCheck.v — evaluation of the C06 correspondence cases (no proofs).
 
    A case is one history executed on the real gateway: the requests with the canonicalised
-   responses the implementation gave, and the final GetAll of every swamp of the key space.
-     oracle  (spec):  the observed responses are compared with [spec_step] run on the same requests;
-                      a request that never returned is code 3, a recovered panic code 4, a response
-                      that differs from the reference model code 2 - unless the history had already
-                      left the specified inputs through one of the classes of [Spec.disc], then the
-                      first difference is attributed to that class (code 10 + class);
-     tie     (model): the observed responses and the final contents must be exactly those of
-                      [api_step cfg_now]; a difference is code 1.
-   The oracle's code wins over the tie's. *)
-From HV Require Export Base.Prelude Swamp.Api Swamp.Spec.
+   responses the implementation gave (the harness ends every history with IsSwampExist and GetAll
+   of every swamp of the key space), and the final contents once more as [cc_final].
+   See [walk] for the verdict codes. *)
+From HV Require Export Base.Prelude Swamp.Api Swamp.Spec Swamp.Abs.
 Local Open Scope Z_scope.
 
 (* ---------- flat encodings (only used to compare observations) ---------- *)
@@ -85,49 +79,45 @@ Definition V := Build_view.
 Definition KV := Build_kv.
 Definition IM := Build_imeta.
 
-(* ---------- oracle ---------- *)
-Fixpoint oracle (t : sstate) (cls : Z) (h : list (request * response)) : Z * sstate * Z * bool :=
-  (* result: code, final spec state, class, completed *)
+(* ---------- the walk: tie and per-request oracle together ----------
+   The faithful model is run along the history (state s). For every request the observed response is
+   compared with
+     - the reference model started from the abstraction of s (the implementation and the model are in
+       step up to here, so abs s is the reference state the request meets), and
+     - the faithful model.
+   A response that differs from the reference model is a violation (code 2) when the request is
+   inside the specified inputs (Spec.disc = 0) and clean (it consults no tainted record, Abs.clean);
+   otherwise it has to be exactly the modelled deviation - it is then remembered as the known class
+   (10 + class) and the walk goes on - and if it is not even that, the tie is broken (code 1).
+   A response that agrees with the reference model must agree with the faithful model too (code 1).
+   A request that never returned is code 3, an answer (nil, nil) code 4. *)
+Fixpoint walk (s : srv) (cls known : Z) (h : list (request * response)) : Z * srv * bool :=
+  (* result: code, final model state, completed *)
   match h with
-  | [] => (0, t, cls, true)
+  | [] => (known, s, true)
   | (q, obs) :: rest =>
-      if is_hang obs then (3, t, cls, false)
-      else if is_nilnil obs then (4, t, cls, false)
+      if is_hang obs then (3, s, false)
+      else if is_nilnil obs then (4, s, false)
       else
-        let d := if Z.eqb cls 0 then disc t q else cls in
-        let '(t', r) := spec_step t q in
-        if resp_same q r obs then oracle t' d rest
-        else (if Z.eqb d 0 then 2 else 10 + d, t, d, false)
-  end.
-Definition spec_final (t : sstate) (sw : Z) : option (list view) :=
-  match aget sw t with Some x => Some (map (fun p => sview (fst p) (snd p)) x) | None => None end.
-Definition oracle_code (c : ccase) : Z :=
-  let '(code, t, cls, done) := oracle sstate0 0 (cc_hist c) in
-  if negb (Z.eqb code 0) then code
-  else if final_same (cc_final c) (spec_final t) then 0
-  else if Z.eqb cls 0 then 2 else 10 + cls.
-
-(* ---------- tie ---------- *)
-Fixpoint tie (s : srv) (h : list (request * response)) : bool * srv * bool :=
-  (* ok, final state, completed (no hang) *)
-  match h with
-  | [] => (true, s, true)
-  | (q, obs) :: rest =>
-      let '(s', r) := api_step cfg_now s q in
-      if resp_same q r obs then (if is_hang obs then (true, s', false) else tie s' rest)
-      else (false, s, false)
+        let '(s', rm) := api_step cfg_now s q in
+        let d := disc (abs s) q in
+        let rs := snd (spec_step (abs s) q) in
+        let cls' := if Z.eqb d 0 then cls else d in
+        if resp_same q rs obs then
+          if resp_same q rm obs then walk s' cls' known rest else (1, s, false)
+        else if Z.eqb d 0 && (clean s q || Z.eqb cls 0) then (2, s, false)
+        else if resp_same q rm obs then
+          walk s' cls' (if Z.eqb known 0 then 10 + cls' else known) rest
+        else (1, s, false)
   end.
 Definition api_final (s : srv) (sw : Z) : option (list view) :=
   match aget sw s with Some x => Some (all_views x) | None => None end.
-Definition tie_code (c : ccase) : Z :=
-  let '(ok, s, done) := tie srv0 (cc_hist c) in
-  if negb ok then 1
-  else if negb done then 0
-  else if final_same (cc_final c) (api_final s) then 0 else 1.
 
 Definition check_case (c : ccase) : N :=
-  let o := oracle_code c in
-  Z.to_N (if Z.eqb o 0 then tie_code c else o).
+  let '(code, s, done) := walk srv0 0 0 (cc_hist c) in
+  Z.to_N (if negb done then code
+          else if Z.eqb code 1 || Z.eqb code 2 then code
+          else if final_same (cc_final c) (api_final s) then code else 1).
 
 Definition check_all (cases : list ccase) : list verdict := check_cases check_case cases.
 
